@@ -336,7 +336,8 @@ def check_and_load_args(args, parser):
     if args.genedb_output is None:
         args.genedb_output = args.output
     elif not os.path.exists(args.genedb_output):
-        os.makedirs(args.genedb_output)
+        # another run that was given the same folder may create it at this very moment
+        os.makedirs(args.genedb_output, exist_ok=True)
     if not args.genedb:
         args.genedb_filename = None
     elif args.genedb.lower().endswith("db"):
